@@ -62,7 +62,7 @@ def programs(tier):
         # observation lists that name an entry twice; ACL rules with listed addresses inside the observed window
         ("gen4", 8 if not thorough else 24, ["router-acl-add-rule", "router-acl-remove-rule"]),
         ("data_manipulation", 14 if not thorough else 60, ["router-acl-addrule", "node-shutdown", "node-file-delete", "router-acl-add-rule"]),
-        ("uc7", 14 if not thorough else 50, ["node-shutdown", "router-acl-add-rule"]),
+        ("uc7", 34 if not thorough else 50, ["node-shutdown", "router-acl-add-rule"]),  # TAP001 reaches its first scan/recon pair
         ("uc7_tap003", 10 if not thorough else 50, ["node-shutdown"]),
     ]
     for scen, steps, names in plan:
